@@ -32,14 +32,6 @@ func setDSL(b *pipeline.Batch, d *pipeline.Design, dsl string) error {
 	return os.WriteFile(filepath.Join(b.Dir, "designs", d.ID+".go"), []byte(designHeader+dsl), 0o644)
 }
 
-func topDSLFunc(stack string) string {
-	_, f := chaos.FirstRepoFrame(stack, chaos.Repo())
-	if f == "" {
-		return "-"
-	}
-	return f
-}
-
 // judgeDangling applies the oracle to one (base, mutant) pair.
 func judgeDangling(run *vc.Run, c *danglingCase, explain bool) {
 	say := func(format string, a ...any) {
@@ -54,10 +46,20 @@ func judgeDangling(run *vc.Run, c *danglingCase, explain bool) {
 	switch c.base.Status {
 	case "accepted":
 	case "panic":
-		key, _ := chaos.PanicKey(c.base.Stack, chaos.Repo(), c.base.Errors, topDSLFunc(c.base.Stack))
+		key, _ := chaos.PanicKey(c.base.Stack, chaos.Repo(), c.base.Errors)
 		wb := w
 		wb.Status, wb.Stack, wb.ErrText, wb.MutantDSL = "panic(base)", chaos.HeadS(c.base.Stack, 6000), c.base.Errors, ""
 		run.Violation(key, "a valid generated design panics: "+chaos.HeadS(c.base.Errors, 200), wb)
+		return
+	case "crash":
+		if strings.Contains(c.base.Stack, "stack overflow") || strings.Contains(c.base.Stack, "goroutine stack exceeds") {
+			fn, _ := chaos.FirstRepoFrame(c.base.Stack, chaos.Repo())
+			wb := w
+			wb.Status, wb.Stack, wb.MutantDSL = "crash(base)", chaos.HeadS(c.base.Stack, 6000), ""
+			run.Violation("fatal:stack-overflow:"+fn, "a valid generated design overflows the stack in "+fn, wb)
+			return
+		}
+		run.Inconclusive("dangling: child crashed on the unmutated spec without a recognisable fatal error")
 		return
 	default:
 		run.Inconclusive("dangling: goa does not accept the unmutated spec (" + c.base.Status + ")")
@@ -90,7 +92,7 @@ func judgeDangling(run *vc.Run, c *danglingCase, explain bool) {
 			fmt.Sprintf("design accepted although %s refers to %q which does not exist", c.mut.Site, c.mut.Name), w)
 		say("oracle: ACCEPTED although %q does not exist: violation", c.mut.Name)
 	case "panic":
-		key, site := chaos.PanicKey(c.mutant.Stack, chaos.Repo(), c.mutant.Errors, topDSLFunc(c.mutant.Stack))
+		key, site := chaos.PanicKey(c.mutant.Stack, chaos.Repo(), c.mutant.Errors)
 		run.Violation(key, "dangling reference ("+c.mut.Class+") panics at "+site+": "+chaos.HeadS(c.mutant.Errors, 200), w)
 		say("oracle: panic at %s: violation", site)
 	case "crash":
